@@ -29,7 +29,8 @@ Clause by clause:
     contract call, DEPLOY, REDEPLOY, FEEDELEGATION with a
     scripted VM (transfers, storage writes, VM fee) ......... `vm_transaction_applies_exactly`
     a contract account's tx to itself (`receiver = sender`) .. `contract_self_call_applies_exactly`
-    MULTICALL (never applied by the scripted VM) ............ `multicall_never_applied`
+    MULTICALL (scripted; `receiver = sender`) ............... `multicall_applies_exactly`,
+                                                              `multicall_without_script_not_applied`
 * a block that fails at any position commits nothing ........ `refused_block_noop`, `refused_iff_some_tx_rejected`
 * the block a producer builds is accepted, same state ....... `producer_validator_agree`
 * the fees these statements speak of are the source's ....... `base_fee_is_the_source` (tie T, `Gen/Fee.lean`)
@@ -378,11 +379,34 @@ example : (executeTx ctxPub w0 0 { txCall with sender := 100, amount := 0, scrip
     (executeTx ctxPub w0 0 { txCall with sender := 100, amount := 0, script := { fee := 10, xfers := [(11, 5)] } }).w.bal 100 = 700000 - 5 - 100010 := by
   refine ⟨by decide, by decide⟩
 
-/-- **A MULTICALL is never applied** by the scripted VM (it holds no multicall code): it fails at run time
-(fee + nonce, `failed_only_fee_and_nonce_partial`) or is rejected. -/
-theorem multicall_never_applied (c : Ctx) (w : World) (bp : Nat) (tx : Tx) (ht : tx.type = .multicall) :
-    (executeTx c w bp tx).outcome ≠ .success :=
-  multicall_not_applied ht
+/-- **A MULTICALL, if applied, is applied exactly** (`receiver = sender`: the sender's own record is the
+"contract"; a multicall has no storage of its own): its payload was a multicall script that ran to its end,
+every target of the script's transfers is credited in script order and the sender's ONE record shows − what
+was sent − the fee (base fee + the VM's), with the tx nonce; nothing is staged. (`multiWorld`) -/
+theorem multicall_applies_exactly (c : Ctx) (w : World) (bp : Nat) (tx : Tx)
+    (ht : tx.type = .multicall) (hs : (executeTx c w bp tx).outcome = .success) :
+    tx.script.multi = true ∧ tx.script.err = .ok ∧
+    sentOut tx.sender tx.script.xfers + (txBaseFee c tx.payloadLen + tx.script.fee) ≤ w.bal tx.sender ∧
+    (executeTx c w bp tx).w = multiWorld w tx (txBaseFee c tx.payloadLen + tx.script.fee) ∧
+    (executeTx c w bp tx).bp = bp + (txBaseFee c tx.payloadLen + tx.script.fee) :=
+  multicall_effects rfl ht hs
+
+/-- a MULTICALL whose payload is no multicall script finds no code in the scripted VM: it fails at run time
+(fee + nonce, `failed_only_fee_and_nonce_partial`) or is rejected, it is never applied -/
+theorem multicall_without_script_not_applied (c : Ctx) (w : World) (bp : Nat) (tx : Tx)
+    (ht : tx.type = .multicall) (hm : tx.script.multi = false) : (executeTx c w bp tx).outcome ≠ .success :=
+  multicall_not_applied ht hm
+
+/-- a multicall that pays 5 to account 11 and 7 to account 100 -/
+def txMulti : Tx :=
+  { type := .multicall, sender := 10, recipient := none, amount := 0, nonce := 1, payloadLen := 60
+    script := { fee := 300, xfers := [(11, 5), (100, 7)], multi := true } }
+
+/-- test: the multicall is applied (sender − 12 − (100000 + 300)); without the script flag it fails at run time -/
+example : (executeTx ctxPub w0 0 txMulti).outcome = .success ∧ (executeTx ctxPub w0 0 txMulti).w.bal 10 = 1000000 - 12 - 100300 ∧
+    (executeTx ctxPub w0 0 txMulti).w.bal 100 = 700007 ∧
+    (executeTx ctxPub w0 0 { txMulti with script := { fee := 300 } }).outcome = .failed := by
+  refine ⟨by decide, by decide, by decide, by decide⟩
 
 /-! ### blocks -/
 
